@@ -77,7 +77,15 @@ def build_record(case: Dict[str, Any]) -> Any:
                                           product_category="cat"))
     for sub in case.get("subs", []):
         rec.add_subregion(SubRegion(common.make_location(sub["loc"]), "tool", label=sub["label"]))
-    if case.get("protos"):
+    if case.get("manual_cands"):
+        # candidate clusters put together by hand (a legal use of the API; members need not overlap)
+        from antismash.common.secmet.features import CandidateCluster
+        protos = rec.get_protoclusters()
+        by_product = {p.product: p for p in protos}
+        for members in case["manual_cands"]:
+            rec.add_candidate_cluster(CandidateCluster(CandidateCluster.kinds.NEIGHBOURING,
+                                                       [by_product[case["protos"][i]["product"]] for i in members]))
+    elif case.get("protos"):
         rec.create_candidate_clusters()
     rec.create_regions()
     return rec
@@ -453,8 +461,10 @@ class C12(Property):
                 case = self.whole_record_case(rng)
             elif r < 0.86:
                 case = self.record_end_case(rng)
-            elif r < 0.94:
+            elif r < 0.92:
                 case = self.multi_exon_over_origin_case(rng)
+            elif r < 0.96:
+                case = self.manual_candidate_case(rng)
             else:
                 case = self.three_around_origin_case(rng)
             # the structured comments the full record carries (main.add_antismash_comments runs before any file is written)
@@ -566,6 +576,24 @@ class C12(Property):
             lo = rng.randint(0, max(0, end - size))
             case["peps"].append({"loc": simple(lo, lo + size, rng.choice([1, -1])), "name": "after",
                                  "lens": [1, size // 3 - 2, 1]})
+        return case
+
+    def manual_candidate_case(self, rng: random.Random) -> Dict[str, Any]:
+        """a candidate cluster put together by hand from protoclusters that do not overlap, with gaps around half
+           the length of the region file (KF-C12-circular-file-reconnects on circular records)"""
+        length = rng.choice([400, 1000, 3000])
+        circular = rng.random() < 0.7
+        unit = length // 40
+        start = rng.randrange(unit, 10 * unit)
+        span_len = rng.randrange(8 * unit, 20 * unit)
+        first = [start, start + rng.randrange(1, 3) * unit]
+        gap = rng.choice([span_len // 2 - unit, span_len // 2, span_len // 2 + 1, span_len * 2 // 3, span_len // 4])
+        second_lo = min(first[1] + gap, start + span_len - unit)
+        second = [second_lo, start + span_len]
+        case = gen_layout(rng, length, circular, n_protos=0, n_subs=0, n_cds=rng.choice([0, 3]), n_peps=0, n_misc=0)
+        case["protos"] = [{"core": simple(first[0], first[1]), "loc": simple(first[0], first[1]), "product": "left"},
+                          {"core": simple(second[0], second[1]), "loc": simple(second[0], second[1]), "product": "right"}]
+        case["manual_cands"] = [[0, 1]]
         return case
 
     def three_around_origin_case(self, rng: random.Random) -> Dict[str, Any]:
@@ -720,6 +748,8 @@ class C12(Property):
                                         f"found {[found[x] for x in keys][:1]}")
                         if d["kf_equal_areas"] and keys == ["cands"]:
                             class_here = "KF-C12-equal-areas"
+                        if d["kf_file_reconnects"]:
+                            class_here = "KF-C12-circular-file-reconnects"
                     if (rl["n_protos"], rl["n_cands"], rl["n_subs"]) != (
                             r["content"]["n_protos"], len(r["content"]["cands"]), len(r["content"]["subs"])):
                         problems.append("loaded record has other areas than the region's")
